@@ -50,8 +50,10 @@ SHAPES = {
     # factories that can not be rendered as a literal: a model instance, a non-empty list (called anew on every load)
     "S17": [["a", "int", "req"], ["b", "nested", "df"]],
     "S18": [["a", "int", "req"], ["b", "any", "df"]],
+    # words with digits followed by letters: where str.title and str.capitalize differ (b2b -> B2B / B2b)
+    "S19": [["partner_b2b_id", "int", "req"], ["utf8mb4_flag", "str", "dv"]],
 }
-QUICK_SHAPES = ["S1", "S2", "S3", "S4", "S6", "S8", "S10", "S14", "S15", "S17"]
+QUICK_SHAPES = ["S1", "S2", "S3", "S4", "S6", "S8", "S10", "S14", "S15", "S17", "S19"]
 
 
 # ------------------------------------------------------------------------------------------------------------
